@@ -66,8 +66,10 @@ var propConfigs = map[string]propConfig{
 			Bound: "the library's level decoder against an independent specification decoder on foreign legal encodings (bound as stated for C07)"}}},
 	"C06": {Gen: true, Bounded: []boundedCheck{{Name: "history-enumeration", Run: "TestBoundedC06", Module: true,
 		Bound: "every history over {Add, Write} of length <= 7 (gzip: <= 5) ended by Close, page sizes 1..3, three codecs, plus 7 longer shapes (page-size multiples followed by empty Writes, records pending at Close) at page sizes 1..4: footer row groups/NumRows/offsets/sizes parsed independently and compared with a list-of-batches model, every chunk walked page by page, records read back and compared, files with and without empty Writes compared byte for byte; thorough tier: every history of length <= 10 (gzip: <= 8), page sizes 1..4"}}},
-	"C13": {Gen: true, Bounded: []boundedCheck{{Name: "race-detector", Run: "TestBoundedC13", Module: true, Race: true,
-		Bound: "24 goroutines (8 per codec) each writing and reading back the same 40-record history concurrently after the pools were dirtied by other workloads, under the Go race detector; outputs compared byte for byte with the sequential run; one scheduler run, not a schedule enumeration"}}},
+	"C13": {Gen: true, Bounded: []boundedCheck{{Name: "history-independence", Run: "TestBoundedC13", Module: true,
+		Bound: "the same driver as race-detector without the race detector (which makes sync.Pool drop items at random): instances that follow abandoned ones in the same process must produce the same bytes and records"},
+		{Name: "race-detector", Run: "TestBoundedC13", Module: true, Race: true,
+		Bound: "24 goroutines (8 per codec) each writing and reading back the same 40-record history concurrently after the pools were dirtied by other workloads and after instances were abandoned half-way (90 readers whose source fails at call k, readers dropped after skipping rows, a writer dropped with records pending), under the Go race detector; outputs compared byte for byte with the sequential run and the records read back with those of the first reader; one scheduler run, not a schedule enumeration"}}},
 	"C07": {Bounded: []boundedCheck{{Name: "rle-roundtrip", PkgRel: "internal/rle", File: "replay/rle_bounded_test.go.txt", Run: "TestBoundedC07",
 		Bound: "value round trip through an independent specification decoder and the library decoder on foreign legal encodings: every level sequence of length <= 12/6/4/3 for width 1/2/3/4, plus run-structured sequences around the 8-value, 63-group (504/505/512 values) and multi-byte-header (8191..8193 repeats) boundaries; 3 encodings per sequence"}}},
 }
